@@ -25,6 +25,8 @@ def sources(mod):
     fields = "".join("\tF%d l%d.T\n" % (i, i) for i in range(NLIB))
     inj.append("type All struct {\n" + fields + "}\n")
     inj.append('func InitAll() All {\n\tpanic(wire.Build(wire.Struct(new(All), "*"), %s))\n}\n' % vals)
+    inj.append("// a value whose map element type names another package, used by two injectors\nvar handlers = wire.NewSet(wire.Value(map[string]*l3.T{\"a\": nil}))\n\n"
+               "func InitHandlers() map[string]*l3.T {\n\tpanic(wire.Build(handlers))\n}\n\ntype H2 struct{ M map[string]*l3.T }\n\nfunc InitH2() H2 {\n\tpanic(wire.Build(handlers, wire.Struct(new(H2), \"*\")))\n}\n")
     inj.append("func InitCfg(a l0.T) (cfg.Settings, error) {\n\tpanic(wire.Build(cfg.New, wire.Value(error(nil)), wire.Value(7)))\n}\n".replace(", wire.Value(error(nil)), wire.Value(7)", ""))
     files["app/wire.go"] = "\n".join(inj)
     files["app/doc.go"] = "package app\n"
